@@ -9,7 +9,7 @@ import pydantic
 from hypothesis import strategies as st
 
 from pbt import strategies as S
-from pbt.common import Stats, Sub, Violation
+from pbt.common import Stats, Sub, Violation, scratch_dir
 from pbt.model import Model
 from pbt.sut import BUILD_MODES, Converter, curies, mk_converter_via, mk_records
 
@@ -36,7 +36,6 @@ PREFIX_FIXED = ["a", "b", "A", "ab", "", "é", "a b", "a\tb", "GO", "go", "a/b",
 IDENT_FIXED = ["", "1", "2", "a:b", ":", "::x", "a\tb", 'q"uote', "line\nbreak", "cr\rhere", "crlf\r\nx", "é", " lead", "trail ", "a,b", "0001", "'"]
 NAMES = [None, "", "n", "name one", "é", "n\tx"]
 
-_TMP = tempfile.TemporaryDirectory(prefix="curies-c15-")
 
 
 def prefixes():
@@ -293,7 +292,7 @@ def check_triples(case, stats: Stats) -> None:
     rows = [[(p.replace(":", ""), i) for p, i in row] for row in case["rows"]]
     triples = [Triple(subject=curies.Reference(prefix=s[0], identifier=s[1]), predicate=curies.Reference(prefix=p[0], identifier=p[1]), object=curies.Reference(prefix=o[0], identifier=o[1])) for s, p, o in rows]
     _counter[0] += 1
-    path = Path(_TMP.name) / f"t{_counter[0]}.tsv{'.gz' if case['gz'] else ''}"
+    path = scratch_dir() / f"t{_counter[0]}.tsv{'.gz' if case['gz'] else ''}"
     try:
         write_triples(triples, path)
         back = read_triples(path)
